@@ -916,6 +916,10 @@ impl<'cmd> Parser<'cmd> {
 
         let skip = self.flag_subcmd_skip;
         self.flag_subcmd_skip = 0;
+        if skip == 0 {
+            // Not resuming a cluster: a position remembered from an earlier argument is stale
+            self.flag_subcmd_at = None;
+        }
         let res = short_arg.advance_by(skip);
         debug_assert_eq!(
             res,
